@@ -302,6 +302,7 @@ def machine(tier: str, record: Callable[[Any, Outcome], None], raise_or_known: C
                 reference_run = self._run(index, fresh)
                 self.references[index] = report_contents(fresh) if reference_run.rc == 0 else {}
             dirty = os.path.isdir(self.outdir) and bool(os.listdir(self.outdir))
+            before = set(os.listdir(self.outdir)) if os.path.isdir(self.outdir) else set()
             result = self._run(index, self.outdir)
             self.history.append(["run", index, "dirty" if dirty else "empty"])
             if dirty:
@@ -311,6 +312,10 @@ def machine(tier: str, record: Callable[[Any, Outcome], None], raise_or_known: C
                 raise_or_known(snapshot, "directory_contents_change_outcome", f"option tuple {self.tuples[index]}: exit status {result.rc} in the used directory, {'0' if self.references[index] else 'non-zero'} in an empty one")
                 return
             if result.rc != 0:
+                return
+            created = set(os.listdir(self.outdir)) - before - set(self._names(index))
+            if created:
+                raise_or_known(snapshot, "directory_contents_change_files_written", f"after {self.history}: the run left {sorted(created)} in the output directory besides its reports {self._names(index)} (nothing of the kind is written into an empty directory)")
                 return
             now = report_contents(self.outdir, self._names(index))
             for name in self._names(index):
